@@ -34,12 +34,12 @@ ENGINE = "sansio"
 TECHNIQUE = "runtime monitoring of hooks and client-side wire bytes of the real DNS layer under scripted upstream anomalies and TCP segmentations"
 BUDGET = {"quick": (4000, 16), "thorough": (150_000, 200)}
 WORKERS = {"quick": 2, "thorough": 16}
-REQUIRED = ["hook.request", "reply.matches", "reply.forwarded", "servfail", "extract.client", "extract.upstream", "malformed.closes",
+REQUIRED = ["hook.request", "unsolicited.silent", "coalesced.unsolicited_after_solicited", "reply.matches", "reply.forwarded", "servfail", "extract.client", "extract.upstream", "malformed.closes",
             "plan.unsolicited", "plan.dup_id", "plan.connect_refused", "plan.addon_response", "plan.addon_error", "seg.bytes", "seg.split"]
 RULE = (
     "case = (transport, 1-8 queries with ids drawn with repetition, optional malformed element [TCP zero length prefix, undecodable "
     "frame/datagram, truncated tail] or early client EOF, TCP segmentation whole / every byte / random cuts / one split point for client and "
-    "upstream streams, per-query upstream script [reply, duplicate, hold-and-reorder, unsolicited id before/after/ahead of its query, none, "
+    "upstream streams (all replies produced for one write of the proxy travel as one chunk, so segments carry several replies; 30% of TCP cases batch every reply into one chunk), per-query upstream script [reply, duplicate, second copy of an older reply, hold-and-reorder, unsolicited id before/after/ahead of its query, none, "
     "close, malformed], refused connect number, addon action per query [pass, set response, set error, delay], schedule random/fifo); "
     "distinct = (transport, segmentation kinds, sorted anomaly kinds exercised, outcome classes, min(#queries,3)); non-trivial = at least two "
     "queries or an anomaly in the script"
@@ -60,7 +60,7 @@ LEVEL_NOTE = "Trusted: vf/ref/dns.py, the harness's stream layout accounting, vf
 
 ZONE = (b"c27", b"test")
 SERVFAIL = 2
-UP_ACTIONS = ["reply"] * 8 + ["dup", "hold", "unsol-before", "unsol-after", "unsol-early", "none"]
+UP_ACTIONS = ["reply"] * 8 + ["dup", "dup-old", "hold", "unsol-before", "unsol-after", "unsol-after", "unsol-early", "none"]
 UP_RARE = ["close", "zero-prefix", "garbage"]
 ADDON_ACTIONS = ["pass"] * 6 + ["respond", "error", "delay"]
 GARBAGE = [b"Not a DNS packet", b"\x00\x01\x01\x00\x00\x01\x00\x00\x00\x00\x00\x00", b"\x00" * 11, b"\x12\x34\x01\x00\x00\x01\x00\x00\x00\x00\x00\x00\x05abc"]
@@ -170,7 +170,13 @@ def run_case(ctx, opts):
     client_eof = truncated_tail or (early is None and r.random() < 0.12)
     if client_eof:
         anomalies.add("client-eof")
-    state = {"serial": 0, "held": [], "unknown_ids": set(), "early_sent": False, "bad_sent": False}
+    state = {"serial": 0, "held": [], "unknown_ids": set(), "early_sent": False, "bad_sent": False, "old": []}
+    # batch mode: the upstream keeps every reply back until it has seen the last query that can reach it, then writes all of them at once
+    # (with unsolicited / duplicate replies wherever the script put them), so that one TCP segment carries several replies
+    passing = [k for k in range(n) if addon_plan[k] in ("pass", "delay")]
+    batch_until = passing[-1] if transport == "tcp" and early is None and len(passing) >= 2 and r.random() < 0.3 else None
+    if batch_until is not None:
+        anomalies.add("up-batch")
 
     def early_gate(drv):
         return state["early_sent"] and not any(drv.inbox[c] for c in drv.servers)
@@ -239,7 +245,7 @@ def run_case(ctx, opts):
         q = qs[k]
         a = up_plan[k]
         acts = []
-        if a in ("reply", "dup", "unsol-before", "unsol-after", "unsol-early", "close"):
+        if a in ("reply", "dup", "dup-old", "unsol-before", "unsol-after", "unsol-early", "close"):
             if a == "unsol-before":
                 mid = unknown_id(q["id"])
                 state["unknown_ids"].add(mid)
@@ -248,6 +254,9 @@ def run_case(ctx, opts):
             acts.append(rep)
             if a == "dup":
                 acts.append(rep)
+            if a == "dup-old" and state["old"]:
+                acts.append(r.choice(state["old"]))  # a second copy of a reply to an id that was answered earlier
+            state["old"].append(rep)
             if a == "unsol-after":
                 mid = unknown_id(q["id"])
                 state["unknown_ids"].add(mid)
@@ -256,8 +265,12 @@ def run_case(ctx, opts):
                 state["unknown_ids"].add(early[1])
                 acts.append(unsolicited(early[1], mk_serial(), r))
                 state["early_sent"] = True
-            acts += state["held"][::-1]
-            state["held"] = []
+            if batch_until is not None and k != batch_until and a != "close":
+                state["held"] += acts[::-1]  # each block keeps its order; the release reverses the blocks
+                acts = []
+            else:
+                acts += state["held"][::-1]
+                state["held"] = []
             if a == "close":
                 acts.append("close")
         elif a == "hold":
@@ -273,7 +286,7 @@ def run_case(ctx, opts):
     ups = []
 
     def server_factory(drv, conn):
-        p = G.DnsUpstream(transport, responder, r, "random" if useg == "split" else useg)
+        p = G.DnsUpstream(transport, responder, r, useg, coalesce=True)
         ups.append(p)
         return p
 
@@ -357,6 +370,23 @@ def run_case(ctx, opts):
            "early": early, "malformed": first_malformed, "hooks": [(h["step"], h["name"], h["req_id"], h["qname"], h["resp_id"]) for h in hooklog][:40],
            "exceptions": [e[:2] for e in d.exceptions]}
     up_sent_sem = [R.semantic(R.decode(m)) for p in ups for m in p.sent]
+    # does the workload reach "an unsolicited reply completes in the same TCP segment as an earlier solicited one"?
+    if transport == "tcp":
+        for p in ups:
+            frames, _, _ = G.split_frames(bytes(p.sent_stream))
+            bounds, acc_ = [], 0
+            for sg in p.segments:
+                acc_ += len(sg)
+                bounds.append(acc_)
+            end, seg_of, kinds = 0, [], []
+            for fr in frames:
+                end += 2 + len(fr)
+                seg_of.append(next((i for i, b in enumerate(bounds) if b >= end), None))
+                kinds.append("unsol" if fr[-4:-2] == b"\x0a\xc8" else "sol")
+            if any(kinds[i] == "unsol" and any(kinds[j] == "sol" and seg_of[j] == seg_of[i] for j in range(i)) for i in range(len(frames))):
+                ctx.count("coalesced.unsolicited_after_solicited")
+                anomalies.add("coalesced-unsol")
+                break
     outcomes = set()
 
     def queries_before(step):
@@ -371,6 +401,17 @@ def run_case(ctx, opts):
             if h["resp_obj"] in seen_obj:
                 ctx.count("observed.stale_response_replayed")
             seen_obj.add(h["resp_obj"])
+        if h["resp_wire"] is not None:
+            ctx.count("unsolicited.silent")
+            try:
+                hsem = R.semantic(R.decode(h["resp_wire"]))
+                hrd = hsem["answers"][0]["rdata"] if hsem["answers"] else b""
+            except R.DecodeError:
+                hrd = b""
+            if len(hrd) == 4 and hrd[:2] == b"\x0a\xc8":
+                outcomes.add("unsolicited-reported")
+                ctx.violation("unsolicited-upstream-reply-reported-to-addons", {**wit, "hook": h["name"], "step": h["step"], "req_id": h["req_id"], "response_id": h["resp_id"]},
+                              classify("hook-flow-without-request", info) if not h["has_request"] else None)
         if not h["has_request"]:
             outcomes.add("hook-without-request")
             ctx.violation("hook-flow-without-request", {**wit, "hook": h["name"], "step": h["step"], "response_id": h["resp_id"]},
@@ -411,6 +452,11 @@ def run_case(ctx, opts):
         sem = R.semantic(dec)
         cands = [q for q in queries_before(s) if q["id"] == dec["id"]]
         info = {"id": dec["id"], "unknown_ids": unknown_ids}
+        ctx.count("unsolicited.silent")
+        rd0 = dec["answers"][0]["rdata"] if dec["answers"] else b""
+        if len(rd0) == 4 and rd0[:2] == b"\x0a\xc8":
+            outcomes.add("unsolicited-forwarded")
+            ctx.violation("unsolicited-upstream-reply-forwarded-to-client", {**wit, "reply": m[:300], "step": s, "reply_id": dec["id"]})
         if not cands:
             outcomes.add("reply-unknown-id")
             ctx.violation("reply-id-not-a-client-query", {**wit, "reply": m[:300], "step": s, "reply_id": dec["id"]}, classify("reply-id-not-a-client-query", info))
